@@ -42,6 +42,9 @@ def build_config(cfg, transforms):
     if f == "sortobj":
         c["objectives"]["realization_filters"] = [0, -1]
         c["nonlinear_constraints"]["realization_filters"] = [-1]
+    elif f == "sortobj2":        # the FIRST objective unfiltered, the second one filtered (the position of the filtered row matters)
+        c["objectives"]["realization_filters"] = [-1, 0]
+        c["nonlinear_constraints"]["realization_filters"] = [-1]
     elif f == "sortobjcon":      # the first objective and the constraint share the sort filter, the second objective is unfiltered:
         c["objectives"]["realization_filters"] = [0, -1]       # a realization outside the window is active for ONE function only
         c["nonlinear_constraints"]["realization_filters"] = [0]
@@ -65,6 +68,7 @@ class LabelEvaluator:
 
     def __init__(self, cfg, garbage, nanreal):
         self.R, self.memo, self.garbage, self.nanreal = cfg["R"], cfg["memo"], garbage, nanreal
+        self.pt = 1                # the point of the current call: at point 2 the realizations swap their values (r <-> R+1-r)
         self.calls = []            # per call: dict(labels, uvars, active)
         self.memo_store = {}
         self.buffers = []
@@ -90,12 +94,13 @@ class LabelEvaluator:
             act = np.vstack([ao, ac]).astype(bool)
         self.calls.append({"labels": labels, "uvars": variables.copy(), "active": act,
                            "summary": None if context.active is None else [bool(v) for v in context.active]})
-        sig = (n, perts is None, tuple(map(tuple, labels)))
+        sig = (n, perts is None, tuple(map(tuple, labels)), self.pt)
         if self.memo in ("arrays", "object") and sig in self.memo_store:
             stored = self.memo_store[sig]
             return stored if self.memo == "object" else EvaluatorResult(objectives=stored.objectives, constraints=stored.constraints,
                                                                        evaluation_info=stored.evaluation_info)
-        vals = np.array([[code(b, r, p, f) for f in (1, 2, 3)] for b, r, p in labels], dtype=np.float64)
+        rr = (lambda r: R + 1 - r) if self.pt == 2 else (lambda r: r)
+        vals = np.array([[code(b, rr(r), p, f) for f in (1, 2, 3)] for b, r, p in labels], dtype=np.float64)
         if act is not None:
             for i, (b, r, p) in enumerate(labels):
                 for f in range(3):
@@ -106,7 +111,7 @@ class LabelEvaluator:
                 if r == self.nanreal and p == 0:
                     vals[i, 0] = np.nan
         objs, cons = vals[:, :2].copy(), vals[:, 2:].copy()
-        tag = np.array([code(b, r, p, 0) for b, r, p in labels], dtype=np.float64)
+        tag = np.array([code(b, rr(r), p, 0) for b, r, p in labels], dtype=np.float64)
         if self.memo == "roviews":          # the evaluator hands out read-only views of buffers it keeps re-using
             self.buffers += [objs, cons, tag]
             objs, cons, tag = objs.view(), cons.view(), tag.view()
@@ -157,6 +162,7 @@ def run(sc, garbage):
         if k == "F" and batch > 1:
             x = np.array([POINTS[1], POINTS[2]][:batch])
         before = len(ev.calls)
+        ev.pt = pt
         res, outcome = outcome_of(lambda: ee.calculate(x, compute_functions=k in ("F", "FG"), compute_gradients=k in ("G", "FG")))
         ncalls = len(ev.calls) - before
         e = {"ev": "Call", "k": k, "pt": pt, "batch": batch, "R": R, "P": P, "tf": bool(cfg["tf"]), "outcome": outcome,
@@ -300,6 +306,14 @@ def extra_scenarios(tier, seed):
     """The same call sequences with one realization failing (NaN in an objective of the unperturbed row)."""
     rng = np.random.default_rng(seed)
     out = []
+    # pure split-evaluation histories over two points: functions, gradient, functions, gradient (the filters select other members
+    # at the second point), and back to the first point
+    F1, G1, F2, G2 = ({"k": k, "pt": pt, "batch": 1} for pt in (1, 2) for k in ("F", "G"))
+    for filt in ("none", "sortobj", "sortobj2", "sortobjcon", "cvarobj", "cononly", "conmixed"):
+        for R in (2, 3):
+            for tf in (False, True):
+                for calls in ([F1, G1, F2, G2], [F2, G2, F1, G1, F2, G2], [F1, G1, G1, F2, G2, G2]):
+                    out.append({"cfg": {"R": R, "P": 2, "rw": [1] * R, "filt": filt, "tf": tf, "memo": "fresh"}, "calls": calls, "nanreal": 0})
     kinds = [{"k": "F", "pt": 1, "batch": 1}, {"k": "G", "pt": 1, "batch": 1}, {"k": "FG", "pt": 2, "batch": 1}, {"k": "G", "pt": 3, "batch": 1},
              {"k": "F", "pt": 1, "batch": 2}, {"k": "G", "pt": 2, "batch": 1}]
     for _ in range(150 if tier == "quick" else 1500):
@@ -309,7 +323,7 @@ def extra_scenarios(tier, seed):
             rw[0] = 1
         calls = [kinds[int(i)] for i in rng.integers(0, len(kinds), int(rng.integers(1, 4)))]
         out.append({"cfg": {"R": R, "P": int(rng.integers(1, 4)), "rw": rw,
-                            "filt": ["none", "sortobj", "sortobjcon", "cvarobj", "cononly", "conmixed"][int(rng.integers(6))],
+                            "filt": ["none", "sortobj", "sortobj2", "sortobjcon", "cvarobj", "cononly", "conmixed"][int(rng.integers(7))],
                             "tf": bool(rng.integers(2)), "memo": ["fresh", "arrays", "object", "roviews"][int(rng.integers(4))]},
                     "calls": calls, "nanreal": int(rng.integers(0, R + 1))})
     return out
